@@ -55,8 +55,21 @@ export class GenCtx {
     return e
   }
   genListValue(rng) {
-    const r = rng.int(20)
+    const r = rng.int(24)
     const local = this.scopes.filter((n) => !this.moduleNames.includes(n))
+    // list expressions with side dependencies (the list's update-path tree is then a computed one)
+    if (r >= 20) {
+      const items = X.mem(X.id('obj'), 'items')
+      return M.ev(rng.pick([
+        () => X.bin('&&', X.id('obj'), items),
+        () => X.bin('||', items, X.id('list')),
+        () => X.bin('??', X.mem(X.id('ob'), 'c'), X.id('list')),
+        () => X.cond(X.id('flag'), X.id('list'), items),
+        () => X.idx(X.id('obj'), X.str('items')),
+        () => X.bin('&&', X.id('flag'), X.id('list')),
+        () => X.bin('||', X.bin('&&', X.id('obj'), items), X.id('arr')),
+      ])())
+    }
     if (r < 7) return M.ev(X.id('list'))
     if (r < 9) return M.ev(X.id('arr'))
     if (r < 11) return M.ev(X.mem(X.id('obj'), 'items'))
@@ -82,6 +95,7 @@ export function makeData(rng, opts = {}) {
   D.list = Array.from({ length: rng.int(4) }, (_, i) => mkItem(i))
   D.arr = rng.pick([() => [1, 2, 3], () => [], () => ['a', , 'c'], () => [[1], { x: 2 }]])()
   D.obj = rng.pick([() => ({ items: [mkItem(7)], x: 1, y: 'why' }), () => ({ x: { x: 5 }, k0: [1] }), () => ({})])()
+  if (opts.richObj && rng.bool(0.5)) D.obj = { items: [mkItem(7), mkItem(8)], x: 1, y: 'why' }
   D.ob = rng.pick([() => ({ x: 1, y: 2 }), () => ({}), () => undefined, () => ({ a: 'ob.a', c: [3] })])()
   D.flag = rng.bool()
   D.n = rng.pick([0, 1, 2, 3, -1, 2.5, NaN])
